@@ -269,9 +269,42 @@ func c10Listeners(p *ana.Prog, r *ana.Result) {
 			r.Violate("C10.gate", fname, "cookie-variable", posOf(p, decs[0]), "UNDECIDED: decrypted cookie is not stored in a local variable")
 			continue
 		}
+		// the decrypted cookie may be copied into further locals (v2 = v1); a local counts when every
+		// store to it is such a copy or the zero value
+		isCookie := map[ssa.Value]bool{cookieAlloc: true}
+		for changed := true; changed; {
+			changed = false
+			for _, b := range fn.Blocks {
+				for _, in := range b.Instrs {
+					al, ok := in.(*ssa.Alloc)
+					if !ok || isCookie[al] || typeNameOf(al.Type()) != "ServerCookie" {
+						continue
+					}
+					okAll, n := true, 0
+					for _, ref := range ana.Referrers(al) {
+						st, ok := ref.(*ssa.Store)
+						if !ok || st.Addr != ssa.Value(al) {
+							continue
+						}
+						if _, isC := st.Val.(*ssa.Const); isC {
+							continue
+						}
+						if ld, ok := st.Val.(*ssa.UnOp); ok && ld.Op == token.MUL && isCookie[ld.X] {
+							n++
+							continue
+						}
+						okAll = false
+					}
+					if okAll && n > 0 {
+						isCookie[al] = true
+						changed = true
+					}
+				}
+			}
+		}
 		// ProcessRequest key = serverCookie.C2S
 		kch, kroot := fieldChain(prs[0].Common().Args[1])
-		if kch == "C2S" && kroot == ssa.Value(cookieAlloc) {
+		if kch == "C2S" && isCookie[kroot] {
 			r.Ok("C10.keys", fname, "request-verified-under-cookie-C2S", posOf(p, prs[0]), "the request is verified under the C2S key of the cookie decrypted from this request")
 		} else {
 			r.Violate("C10.keys", fname, "request-verified-under-cookie-C2S", posOf(p, prs[0]), "the request is not verified under the decrypted cookie's client-to-server key")
@@ -306,7 +339,7 @@ func c10Listeners(p *ana.Prog, r *ana.Result) {
 		}
 		isS2CRead := func(in ssa.Instruction) bool {
 			fa, ok := in.(*ssa.FieldAddr)
-			return ok && fa.X == ssa.Value(cookieAlloc) && fieldNameOf(fa.X.Type(), fa.Field) == "S2C"
+			return ok && isCookie[fa.X] && fieldNameOf(fa.X.Type(), fa.Field) == "S2C"
 		}
 		tgts := []tgt{
 			{"NewResponsePacket", ana.IsCallTo(ana.Q("net/nts.NewResponsePacket")), 1},
@@ -334,14 +367,14 @@ func c10Listeners(p *ana.Prog, r *ana.Result) {
 		for _, c := range ana.CallsIn(fn, ana.Q("net/nts.NewResponsePacket")) {
 			ch, root := fieldChain(c.Common().Args[1])
 			uid := ana.AccessPath(c.Common().Args[2])
-			if ch == "S2C" && root == ssa.Value(cookieAlloc) && uid == "ntsreq.UniqueID.ID" {
+			if ch == "S2C" && isCookie[root] && uid == "ntsreq.UniqueID.ID" {
 				r.Ok("C10.keys", fname, "response-sealed-under-cookie-S2C", posOf(p, c), "NewResponsePacket(cookies, serverCookie.S2C, ntsreq.UniqueID.ID)")
 			} else {
 				r.Violate("C10.keys", fname, "response-sealed-under-cookie-S2C", posOf(p, c), "the response is not sealed under the decrypted cookie's server-to-client key with the request's unique identifier")
 			}
 		}
 		for _, c := range ana.CallsIn(fn, ana.Q("(*net/ntske.ServerCookie).EncryptWithNonce")) {
-			if c.Common().Args[0] == ssa.Value(cookieAlloc) {
+			if isCookie[c.Common().Args[0]] {
 				r.Ok("C10.gate", fname, "new-cookies-carry-session-keys", posOf(p, c), "new cookies re-seal the decrypted session cookie")
 			} else {
 				r.Violate("C10.gate", fname, "new-cookies-carry-session-keys", posOf(p, c), "new cookies are not made from the session cookie of this request")
